@@ -345,7 +345,9 @@ class Lark(Serialize, Generic[_Return_T]):
                 unhashable = ('transformer', 'postlex', 'lexer_callbacks', 'edit_terminals', '_plugins')
                 options_str = ''.join(k+str(v) for k, v in options.items() if k not in unhashable)
                 from . import __version__
-                s = grammar + options_str + __version__ + str(sys.version_info[:2])
+                # The source path is part of the key: relative imports are resolved against it, so the same text
+                # opened from another directory can be a different grammar.
+                s = grammar + options_str + str(self.source_path) + __version__ + str(sys.version_info[:2])
                 cache_sha256 = sha256_digest(s)
 
                 if isinstance(self.options.cache, str):
